@@ -486,7 +486,7 @@ func (u *Unit) applyContract(fr *Frame, st *State, con *Contract, fn *ssa.Functi
 		panic(u.errf("contract %s was not type-checked", con.name))
 	}
 	u.calleesUsed[name] = con.mode
-	env := &Env{u: u, st: st, vars: map[string]Val{}, fr: nil}
+	env := &Env{u: u, st: st, vars: map[string]Val{}, fr: nil, info: ci.info}
 	if len(ci.params) != len(args) {
 		panic(u.errf("call of %s: %d params, %d args", name, len(ci.params), len(args)))
 	}
@@ -506,7 +506,7 @@ func (u *Unit) applyContract(fr *Frame, st *State, con *Contract, fn *ssa.Functi
 	pre := st.clone()
 	u.havocModifies(env, st, con, name)
 	// results
-	penv := &Env{u: u, st: st, vars: map[string]Val{}, old: &Env{u: u, st: pre, vars: env.vars}}
+	penv := &Env{u: u, st: st, vars: map[string]Val{}, old: &Env{u: u, st: pre, vars: env.vars}, assuming: true}
 	for k, v := range env.vars {
 		penv.vars[k] = v
 	}
